@@ -241,6 +241,40 @@ def run(chk: Check, eng: Engine) -> None:
     if n_f == 0:
         raise AnalysisError("no Suggestion.get_replacements parses text any more")
 
+    # ---- R16-g ---------------------------------------------------------------
+    # the read-only mark is taken off only from trees the function has just built (a copy, a parse result, a fuzzed subtree)
+    chk.rule("R16-g", "set_all_read_only(False) / read_only = False is applied only to a tree the same function has just created (copy, parse, fuzz)", floor=1)
+    FRESH = {"deepcopy", "__deepcopy__", "parse", "fuzz", "DerivationTree", "copy"}
+    n_g = 0
+    for f in eng.ix.all_functions:
+        if not f.module.startswith(("fandango.constraints", "fandango.evolution", "fandango.language.tree", "fandango.language.grammar", "fandango.io", "fandango.api")):
+            continue
+        if f.name in ("set_all_read_only", "__init__"):
+            continue
+        sites = []
+        for n in walk_local(f.node):
+            if isinstance(n, ast.Call) and call_name(n) == "set_all_read_only" and isinstance(n.func, ast.Attribute) and n.args and isinstance(n.args[0], ast.Constant) and n.args[0].value is False:
+                sites.append((n, n.func.value))
+            if isinstance(n, ast.Assign) and isinstance(n.value, ast.Constant) and n.value.value is False:
+                for t in n.targets:
+                    if isinstance(t, ast.Attribute) and t.attr in ("read_only", "_read_only"):
+                        sites.append((n, t.value))
+        for n, recv in sites:
+            n_g += 1
+            fresh = False
+            if isinstance(recv, ast.Name):
+                defs = [a for a in walk_local(f.node) if isinstance(a, (ast.Assign, ast.AnnAssign, ast.NamedExpr)) and a.value is not None and
+                        any(isinstance(t, ast.Name) and t.id == recv.id for t in (a.targets if isinstance(a, ast.Assign) else [a.target]))]
+                fresh = bool(defs) and all(isinstance(d.value, ast.Call) and call_name(d.value) in FRESH for d in defs) and recv.id not in f.params()
+            if fresh:
+                chk.ok("R16-g", f.fq, n.lineno, f"`{short(n, 60)}`: `{norm(recv)}` was created in this function")
+            else:
+                chk.bad("R16-g", eng.relfile(f), n.lineno, f.fq, f"`{short(n, 60)}` removes the read-only mark from `{norm(recv)}`, a tree this function did not create",
+                        "generator-owned text inside a live individual becomes writable: later mutations and repairs edit it without re-running the generator",
+                        keyparts=f"unseal-live|{norm(recv)}")
+    if n_g == 0:
+        raise AnalysisError("no site removes a read-only mark any more (R16-g has lost its instances)")
+
 
 # ------------------------------------------------------------------ self-test variants
 from ..mutants import M  # noqa: E402
@@ -251,6 +285,9 @@ _G = "src/fandango/language/grammar/grammar.py"
 _MU = "src/fandango/evolution/mutation.py"
 _CX = "src/fandango/evolution/crossover.py"
 MUTANTS = [
+    M("repair-unfreezes-the-live-source", "src/fandango/constraints/comparison.py", "            source_copy = self._source.deepcopy(\n                copy_children=True, copy_params=False, copy_parent=False\n            )\n            source_copy.set_all_read_only(False)\n",
+      "            source_copy = self._source\n            source_copy.set_all_read_only(False)\n", "R16-g"),
+    M("guard-checks-the-replacements-flag", "src/fandango/language/tree.py", "        if (\n            current_path in path_to_replacement\n            and self.symbol == path_to_replacement[current_path].symbol\n            and not self.read_only\n        ):\n            new_subtree = path_to_replacement[current_path].deepcopy(\n", "        replacement = path_to_replacement.get(current_path)\n        if (\n            replacement is not None\n            and replacement.symbol == self.symbol\n            and not replacement.read_only\n        ):\n            new_subtree = replacement.deepcopy(\n", "R16-a"),
     M("regenerated-children-writable", "src/fandango/language/grammar/grammar.py", "        generated = self.generate(tree.nonterminal, tree.sources)\n        # Prevent children from being overwritten without executing generator\n        for child in generated.children:\n            child.set_all_read_only(True)\n        return generated.children\n",
       "        generated = self.generate(tree.nonterminal, tree.sources)\n        return generated.children\n", "R16-b"),
     M("regenerated-children-sealed-only-if-many", "src/fandango/language/grammar/grammar.py", "        for child in generated.children:\n            child.set_all_read_only(True)\n        return generated.children\n",
@@ -269,6 +306,7 @@ MUTANTS = [
     M("find-all-nodes-default-false", _T, "    def find_all_nodes(\n        self, symbol: NonTerminal, exclude_read_only: bool = True\n    )", "    def find_all_nodes(\n        self, symbol: NonTerminal, exclude_read_only: bool = False\n    )", "R16-e"),
 ]
 TWINS = [
+    M("twin-guard-with-hoisted-lookup", "src/fandango/language/tree.py", "        if (\n            current_path in path_to_replacement\n            and self.symbol == path_to_replacement[current_path].symbol\n            and not self.read_only\n        ):\n            new_subtree = path_to_replacement[current_path].deepcopy(\n", "        replacement = path_to_replacement.get(current_path)\n        if (\n            replacement is not None\n            and replacement.symbol == self.symbol\n            and not self.read_only\n        ):\n            new_subtree = replacement.deepcopy(\n", None),
     M("twin-repair-skips-generator-targets", "src/fandango/constraints/comparison.py", "        symbol = self._target.symbol\n        assert isinstance(symbol, NonTerminal)\n",
       "        symbol = self._target.symbol\n        assert isinstance(symbol, NonTerminal)\n        if symbol in grammar.generators:\n            return []\n", None),
     M("twin-seal-loop-var", _NT, "            for child in generated.children:\n                child.set_all_read_only(True)\n", "            for gen_child in generated.children:\n                gen_child.set_all_read_only(True)\n", None),
